@@ -229,6 +229,8 @@ pub struct LedgerOracle {
     /// (the step being judged, before it was cut into parts, contains a release)
     whole_step_has_end_confirm: bool,
     script_len: usize,
+    /// (group, variation) pairs the master's last READ named explicitly (variation 0 and class headers name none)
+    last_read_vars: BTreeSet<(u8, u8)>,
     nontrivial: bool,
     fp: u64,
     counters: BTreeMap<String, u64>,
@@ -247,6 +249,7 @@ impl LedgerOracle {
             unconfirmed_event_response: false,
             whole_step_has_end_confirm: false,
             script_len: case.script.len(),
+            last_read_vars: BTreeSet::new(),
             nontrivial: false,
             fp: 0,
             counters: BTreeMap::new(),
@@ -653,6 +656,18 @@ impl LedgerOracle {
                             && s.dest == _world.cfg.outstation_addr
                     })
                     .unwrap_or(false);
+                if is_read_from_master && !matches!(step.op, Op::Repeat) {
+                    self.last_read_vars.clear();
+                    if let Some(sent) = &step.sent {
+                        if let Ok((headers, _)) = refapp::decode_objects(&sent.bytes[2..], false) {
+                            for h in &headers {
+                                if h.var != 0 && h.group != 60 {
+                                    self.last_read_vars.insert((h.group, h.var));
+                                }
+                            }
+                        }
+                    }
+                }
                 if is_read_from_master && step.op_index == self.script_len {
                     self.bump("probe.closing_poll_sent");
                     if step.received.is_empty() {
@@ -751,6 +766,33 @@ impl LedgerOracle {
                         ));
                         }
                     };
+                    // (i') "with exactly the ... flags and time they were recorded with": the variation an event is reported in must not
+                    // drop the time or the flags that the point's configured event variation carries - unless the master asked
+                    // for that very variation (a variation left over from an earlier, unconfirmed READ is not what was asked for)
+                    for (m, id) in events.iter().zip(ids.iter()) {
+                        let Some(e) = self.ledger.events.get(id).map(|e| (e.ptype, e.index)) else { continue };
+                        let e = crate::verif::nodes::outstation::PointCfg { ptype: e.0, index: e.1, class: 0, svar: 0, evar: 0, deadband: 0 };
+                        let Some(p) = _world.cfg.points.iter().find(|p| p.ptype == e.ptype && p.index == e.index) else { continue };
+                        let (Some(conf), Some(used)) = (refapp::layout(m.group, p.evar), refapp::layout(m.group, m.var)) else { continue };
+                        let asked_for = !unsol && self.last_read_vars.contains(&(m.group, m.var));
+                        if asked_for || m.var == p.evar {
+                            continue;
+                        }
+                        self.bump("probe.event_reported_in_unconfigured_variation");
+                        let loses_time = conf.time != refapp::TimeField::None && used.time == refapp::TimeField::None;
+                        let loses_flags = conf.flags && !used.flags;
+                        if loses_time || loses_flags {
+                            return Some(Violation::new(
+                                "C03/i event-reported-without-what-was-recorded",
+                                if loses_time { "time-dropped-by-variation" } else { "flags-dropped-by-variation" },
+                                format!(
+                                    "step {}: event {} ({:?}[{}]) is reported as g{}v{} although the point is configured for g{}v{} and the master did not ask for that variation: the recorded {} does not reach it",
+                                    step.op_index, id, e.ptype, e.index, m.group, m.var, m.group, p.evar,
+                                    if loses_time { "time" } else { "flag octet" }
+                                ),
+                            ));
+                        }
+                    }
                     // (ii) oldest first
                     for w in ids.windows(2) {
                         if w[1] < w[0] {
